@@ -394,10 +394,15 @@ impl<K1: Clone + Eq + Hash, K2: Copy + Eq + Hash, V: PartialEq> PartitionedCache
                     self.current_size -= 1;
 
                     if dup_expiry == partition.next_expiry {
+                        // the record which determined the next expiry time has
+                        // been replaced: recompute it over the whole partition
+                        // (not just this record type)
                         let mut new_next_expiry = expiry;
-                        for (_, e) in tuples {
-                            if *e < new_next_expiry {
-                                new_next_expiry = *e;
+                        for tuples in partition.records.values() {
+                            for (_, e) in tuples {
+                                if *e < new_next_expiry {
+                                    new_next_expiry = *e;
+                                }
                             }
                         }
                         partition.next_expiry = new_next_expiry;
